@@ -233,6 +233,11 @@ func (fr *Frame) freshResult(resT types.Type) Val {
 func (fr *Frame) havocCall(why string, c *ssa.CallCommon, args []Val, resT types.Type, cond string, st *State) Val {
 	vc := fr.vc
 	vc.warn("%s: %s — results and pointer arguments havoc'ed", fr.key, why)
+	if c != nil {
+		if callee := c.StaticCallee(); callee != nil && vc.W.MayEffect(callee) {
+			fr.havocTrace(st)
+		}
+	}
 	for _, a := range args {
 		fr.havocReach(a, st)
 	}
@@ -244,6 +249,19 @@ func (fr *Frame) havocCall(why string, c *ssa.CallCommon, args []Val, resT types
 		}
 	}
 	return fr.freshResult(resT)
+}
+
+// havocTrace: the trace after a call that may append events: same prefix, possibly longer.
+func (fr *Frame) havocTrace(st *State) {
+	vc := fr.vc
+	tc, lc := vc.traceCells(st)
+	oldT, oldL := st.cells[tc], st.cells[lc]
+	nt := vc.fresh("trace", "(Array Int Event)")
+	nl := vc.fresh("tlen", "Int")
+	vc.fact(fmt.Sprintf("(>= %s %s)", nl, oldL))
+	vc.fact(fmt.Sprintf("(forall ((?k Int)) (! (=> (and (<= 0 ?k) (< ?k %s)) (= (select %s ?k) (select %s ?k))) :pattern ((select %s ?k))))", oldL, nt, oldT, nt))
+	st.cells[tc] = nt
+	st.cells[lc] = nl
 }
 
 func (fr *Frame) havocReach(a Val, st *State) {
@@ -341,6 +359,11 @@ func (fr *Frame) applyContract(callee *ssa.Function, sp *spec.FuncSpec, args []V
 				vc.store(st, loc, vc.fresh("mod", vc.S.Sort(t)))
 			}
 		}
+	}
+	// a callee that can perform declared effects appends its events to the (flattened) trace: the trace keeps its
+	// prefix and may grow; what the callee's contract says about tlen()/evIs(...) then describes that segment
+	if !sp.Pure && !sp.Effect && vc.W.MayEffect(callee) {
+		fr.havocTrace(st)
 	}
 	// results
 	var res []Val
